@@ -73,3 +73,23 @@ impl ResolveRegistry {
         resolved
     }
 }
+
+#[cfg(crux_verif)]
+impl ResolveRegistry {
+    /// Verification hook (read-only): `(id, kind)` of every registered entry in id order,
+    /// kind 0 = Never, 1 = Once, 2 = Many.
+    pub fn verif_entries(&self) -> Vec<(u32, u8)> {
+        let registry = self.0.lock().unwrap_or_else(std::sync::PoisonError::into_inner);
+        registry
+            .iter()
+            .map(|(id, entry)| {
+                let kind = match entry {
+                    ResolveSerialized::Never => 0,
+                    ResolveSerialized::Once(_) => 1,
+                    ResolveSerialized::Many(_) => 2,
+                };
+                (id as u32, kind)
+            })
+            .collect()
+    }
+}
